@@ -1071,6 +1071,57 @@ class ProgGen:
         return src, alphabet
 
 
+
+def shared_action_programs(rng, n):
+    """Family: several flows start an IDENTICAL action on the same event (co-winning heads ->
+    one shared action uid in several FlowState.action_uids / scopes) and end at different times
+    and in different ways (action finished, event, abort, stopped by the parent, scope left)."""
+    act = 'UtteranceBotAction(script="s")'
+    owner_forms = [
+        # (how the flow uses the shared action, what follows)
+        ["  await {act}"],
+        ["  start {act} as $act", "  match E2()"],
+        ["  start {act} as $act", "  match $act.Finished()", "  match E3()"],
+        ["  start {act} as $act", "  match E2()", "  send $act.Stop()", "  match E3()"],
+        ["  start {act} as $act", "  match E2()", '  await UtteranceBotAction(script="t")'],
+        ["  start {act} as $act", "  match E2()", "  abort"],
+        ["  when {act}", "    match E3()", "  or when E2()", "    match E3()"],
+        ["  when E2()", "    match E3()", "  or when {act}", "    send O1()"],
+        ["  await {act} or E2()", "  match E3()"],
+        ["  start {act} as $act", "  match $act.Finished() or E2()"],
+        ["  await {act}", "  await {act}"],
+    ]
+    mains = [
+        ["  start fa", "  start fb", "  match Never()"],
+        ["  start fa and fb", "  match Never()"],
+        ["  await fa or fb", "  match Never()"],
+        ["  await fa and fb", "  match E3()"],
+        ["  activate fa", "  start fb", "  match Never()"],
+        ["  start fa as $r", "  start fb", "  match E3()", "  send $r.Stop()", "  match Never()"],
+        ["  when fa", "    match E3()", "  or when fb", "    match E3()", "  match Never()"],
+        ["  start fa", "  start fb", "  start fc", "  match Never()"],
+    ]
+    out = []
+    seen = set()
+    tries = 0
+    while len(out) < n and tries < n * 20:
+        tries += 1
+        m = rng.choice(mains)
+        names = ["fa", "fb"] + (["fc"] if any("fc" in l for l in m) else [])
+        text = []
+        for nm in names:
+            form = rng.choice(owner_forms)
+            dec = ['@loop("L1")'] if rng.random() < 0.1 else []
+            text += dec + [f"flow {nm}", "  match E1()"] + [l.format(act=act) for l in form] + [""]
+        text += ["flow main"] + m
+        src = "\n".join(text) + "\n"
+        if src in seen:
+            continue
+        seen.add(src)
+        alpha = [["ev", "E1", {}], ["fin", 0], ["ev", "E2", {}], ["ev", "E3", {}], ["ev", "Unrelated", {}]]
+        out.append({"src": src, "alphabet": alpha})
+    return out
+
 def library_programs():
     """Shipped Colang 2 library flows (each file that parses offline) with small drivers."""
     lib = os.path.join(C.REPO, "nemoguardrails", "colang", "v2_x", "library")
@@ -1503,7 +1554,7 @@ def worker_main(jobfile, outfile):
 
 def make_programs(tier, seed):
     rng = random.Random(seed * 1000003 + 9)
-    n_gen = 220 if tier == "quick" else 800
+    n_gen = 200 if tier == "quick" else 800
     progs = []
     modes = [None, None, None, "aging", "roundtrip"]
     seen = set()
@@ -1517,6 +1568,11 @@ def make_programs(tier, seed):
             continue
         seen.add(h)
         progs.append({"id": f"g{len(progs)}", "src": src, "alphabet": alpha, "mode": modes[len(progs) % len(modes)]})
+    # shared-action family: mostly in the aged mode (the 5-second clean-up runs before every event)
+    n_fam = 36 if tier == "quick" else 150
+    fam_modes = ["aging", "aging", None, "roundtrip"]
+    for i, fp in enumerate(shared_action_programs(random.Random(rng.getrandbits(64)), n_fam)):
+        progs.append({"id": f"s{i}", "src": fp["src"], "alphabet": fp["alphabet"], "mode": fam_modes[i % len(fam_modes)]})
     libs = []
     for lp in library_programs():
         if lp.get("src") is None:
